@@ -170,6 +170,11 @@ def g3_equivalence_paths(ctx) -> None:
     ctx.ok("G3", "each such label is connected from itself to the actual parent that stands for its representative, along consecutive pairs of the path")
     inner, b = paths[0]
     pa, ch = b["_M_a"], b["_M_b"]
+    # every label without a rule of its own gets its path: nothing about the label lets the walk be skipped
+    sk0 = _atoms(_skips(f, inner, within=lp))
+    if sk0:
+        ctx.violation("G3", inner, f"the path of a label is walked only under {sorted(sk0)[:2]}: a label that is skipped (it may be the representative of its class without being the "
+                      "member that was expanded) stays without a rule, and the specification has a class on a right-hand side that is nobody's left-hand side")
     st = PT.find_all(inner, f"self.rules_dict[{pa}] = ({ch},)")
     if st:
         sk = _atoms(_skips(f, st[0][0], within=inner))
@@ -389,6 +394,19 @@ def g7_equivalence_folding(ctx) -> None:
         ctx.ok("G7", "the walk continues into all children of every rule it meets")
     else:
         ctx.violation("G7", f, "the walk must push all children of each visited rule", construct=f"{SP}._group_equiv_in_path walk")
+    # a hidden class (one that only occurs inside chains) is walked every time a chain reaches it: it can be the common tail
+    # of two chains, and the second chain needs its steps as well.  Only visible classes are skipped when met again.
+    if ext:
+        for x in walk_local(f):
+            if not isinstance(x, ast.Continue):
+                continue
+            gs = _atoms(C.flatten_guards(C.guards(f, x)))
+            seen_again = [t for t, p_ in gs if p_ and t.endswith(" in visited")]
+            if seen_again and not any(p_ and t.endswith(f" in {nh}") for t, p_ in gs):
+                ctx.violation("G7", x, f"the walk skips every class it has met before (`{seen_again[0]}`), hidden ones too: a hidden class shared by two equivalence chains is "
+                              "walked for the first only, the second chain is cut there -- its first step stays an ordinary rule into a class whose own rule is deleted")
+            elif seen_again:
+                ctx.ok("G7", "only visible classes are skipped when met again; hidden ones are walked for every chain through them")
     un = P.need_method(SP, "_ungroup_equiv_path", own=True)
     ctx.analysed(un)
     if PT.find_all(un.node, "for _M_r in _M_rule.rules:\n    _M_new[_M_r.comb_class] = _M_r") and PT.find_all(un.node, "self.rules_dict.update(_M_new)"):
@@ -458,3 +476,79 @@ def g9_ungroup_only_when_grouping(ctx) -> None:
             else:
                 ctx.violation("G9", c, f"{m.qualname} unfolds the equivalence paths whether or not they are folded again: with group_equiv=False (a specification being loaded) the "
                               "rules inside a path, reverse steps included, become rules of the specification on their own")
+
+
+def g10_loader_takes_rules_as_written(ctx) -> None:
+    """to_jsonable writes the rules in their final form (paths already folded, or left bare
+    when the specification was built with group_equiv=False).  The loader hands them to the
+    constructor with group_equiv=False -- the constant: folding again, always or depending on
+    what the rules look like, turns a specification that was saved bare into another one."""
+    P = ctx.P
+    m = P.need_method(SP, "from_dict", own=True)
+    f = m.node
+    ctx.analysed(m)
+    mk = [c for c in walk_local(f) if isinstance(c, ast.Call) and norm(c.func) in (SP, "cls")]
+    if not mk:
+        raise AnalysisError("G10: from_dict no longer builds the specification with the constructor")
+    init = P.need_method(SP, "__init__", own=True)
+    ps = init.params()[1:]
+    for c in mk:
+        val = None
+        for k in c.keywords:
+            if k.arg == "group_equiv":
+                val = k.value
+        if val is None and "group_equiv" in ps and len(c.args) > ps.index("group_equiv"):
+            val = c.args[ps.index("group_equiv")]
+        if val is None:
+            ctx.violation("G10", c, "from_dict builds the specification with the constructor's default group_equiv (True): a specification saved with bare equivalence rules "
+                          "comes back folded, with other rules for the same classes")
+            continue
+        v = D.expanded(f, val)
+        if isinstance(v, ast.Constant) and v.value is False:
+            ctx.ok("G10", "the loader hands the rules to the constructor as they were written (group_equiv=False)")
+        else:
+            ctx.violation("G10", c, f"from_dict builds the specification with group_equiv=`{norm(v)[:60]}`: what is folded is decided while loading, so a specification that was "
+                          "built (and saved) with bare equivalence rules is not the one that comes back")
+
+
+def g11_one_place_hands_out_labels(ctx) -> None:
+    """The equations name each class F_<label>.  A fresh label is `len(self._class_to_label)`,
+    which is a label nobody has only as long as the labels in use are exactly 0 .. n-1, i.e. as
+    long as get_label is the only writer of the two tables.  A second writer (labels taken over
+    from elsewhere) leaves gaps, and the next fresh label is one that is already in use: two
+    classes share a function name and the system of equations is false."""
+    P = ctx.P
+    cls = P.need_class(SP)
+    tables = ("_class_to_label", "_label_to_class")
+    gl = P.need_method(SP, "get_label", own=True)
+    ctx.analysed(gl)
+    n = 0
+    for k in P.subclasses(cls, strict=False):
+        for mm in k.methods.values():
+            for w in walk_local(mm.node):
+                hit = None
+                if isinstance(w, ast.Subscript) and isinstance(w.ctx, (ast.Store, ast.Del)) and any(is_self_attr(w.value, t) for t in tables):
+                    hit = w
+                elif isinstance(w, ast.Call) and isinstance(w.func, ast.Attribute) and any(is_self_attr(w.func.value, t) for t in tables) \
+                        and w.func.attr in ("update", "setdefault", "pop", "popitem", "clear", "__setitem__"):
+                    hit = w
+                elif isinstance(w, (ast.Assign, ast.AnnAssign)) and mm.name != "__init__" \
+                        and any(is_self_attr(t_, t) for t in tables for t_ in (w.targets if isinstance(w, ast.Assign) else [w.target])):
+                    v = w.value
+                    if not (isinstance(v, ast.Dict) and not v.keys) and not (isinstance(v, ast.Call) and norm(v.func) == "dict" and not v.args):
+                        hit = w
+                if hit is None:
+                    continue
+                n += 1
+                if mm is gl:
+                    continue
+                ctx.violation("G11", hit, f"{mm.qualname} writes the label tables itself (`{norm(C.stmt_of(hit))[:60]}`); get_label takes len(self._class_to_label) as the next unused "
+                              "label, which is only unused while get_label alone numbers the classes 0, 1, 2, ... -- with labels brought in from elsewhere the next class gets a "
+                              "label that is taken, and two classes share one F_i in the equations")
+    f = gl.node
+    fresh = [st for st in walk_local(f) if isinstance(st, ast.Assign) and norm(st.value) == "len(self._class_to_label)"]
+    stores = [w for w in walk_local(f) if isinstance(w, ast.Subscript) and isinstance(w.ctx, ast.Store) and any(is_self_attr(w.value, t) for t in tables)]
+    if fresh and len(stores) == 2 and n >= 2:
+        ctx.ok("G11", "labels are handed out by get_label alone, densely from 0 (next label = number of labels in use), and entered in both tables")
+    elif not ctx.violations:
+        raise AnalysisError("G11: get_label no longer numbers the classes with len(self._class_to_label)")
